@@ -166,7 +166,8 @@ GetLike(c, m, pre, op, res, post) ==
 
 \* "aligned for T" is a statement about the address; an arena whose base is not aligned for T cannot serve T at all
 PtrPreds(c, pre, res, post, a) ==
-  <<P("PointerAligned", (c.bmod % a = 0) => (res.poff % a = 0 /\ res.pmod = 0)),
+  \* (a zero-capacity handle has no memory behind it: its pointers are dangling by construction)
+  <<P("PointerAligned", (c.bmod % a = 0 /\ c.cap > 0) => (res.poff % a = 0 /\ res.pmod = 0)),
     P("PointerInside", c.po + pre.len <= res.poff /\ res.poff <= c.po + c.cap)>>
 
 AlignPreds(c, pre, op, res, post) ==
